@@ -50,6 +50,8 @@ func vwCounters(r *ev.R, st *vwStats) {
 		"retry_refused_under_higher_authority":                     st.retryRefusedHigherAuthority.Load(),
 		"committed_pairs_compared":                                 st.committedPairsCompared.Load(), "entry_digests_verified": st.chainEntriesVerified.Load(),
 		"observation_rejected_conflicting_retry_left_uncommitted_row_on_non_holder": st.conflictGarbageRow.Load(),
+		"server_allocated_proposal_at_follower_frontier":                            st.saAtFrontier.Load(),
+		"server_allocated_proposal_at_frontier_of_divergent_equal_length_tail":      st.saAtFrontierDivergentTail.Load(),
 		"commit_backpressured": st.commitBackpressured.Load(), "commit_quorum_unavailable": st.commitUnavailable.Load(),
 	}
 	for k, v := range c {
